@@ -653,6 +653,20 @@ def judge_pack(before, after, T, gc, kind, outcome, truth, bounds, counts):
                          [x[:5] for x in post_listing(after['listing'], T)])
         bad.append((SIG_FIRST_DUP if only_firstdup else 'C07:later-transaction-changed',
                     'transactions after T=%d differ after pack(gc=%d) on %s' % (T, gc, kind)))
+    # the iterator lists exactly the revisions the storage still holds: a listed record loads by its
+    # serial (MappingStorage-like: every listed record; FileStorage: those of unpacked transactions after
+    # T — packed records have no prev pointers to chase), with the listed data
+    rs_after = rec_set(after['listing'])
+    packed = {t['m'] for t in after['listing'] if t['status'] == 'p'}
+    for (m, o), d in sorted(rs_after.items(), key=lambda kv: kv[0]):
+        if d is None or not (kind in MAPLIKE or (m > T and m not in packed)):
+            continue
+        got = after['ser'].get((o, m))
+        if got != d:
+            bad.append(('C07:iterator-lists-removed-record' if isinstance(got, str) else 'C07:record-altered',
+                        'after pack(T=%d, gc=%d) on %s the iterator lists record (tid %d, oid %d) but '
+                        'loadSerial gives %r' % (T, gc, kind, m, o, short(got))))
+            break
     # sentence 1: only R is removed; nothing is invented or altered
     rb, ra = rec_set(before['listing']), rec_set(after['listing'])
     for (m, o), d in sorted(ra.items(), key=lambda kv: kv[0]):
@@ -925,6 +939,14 @@ def run_case(case, tmp, want_model=True):
                                                          cfg['pack_gc'], cfg['keep_old'])
                 counts[key] = counts.get(key, 0) + 1
             ino0 = os.stat(path).st_ino if kind in FSLIKE else None
+            if kind in FSLIKE:
+                # several pooled read handles at pack time, as after simultaneous loads by several threads
+                # (every one of them must be discarded when the packed file is swapped in)
+                pool = getattr(inner, '_files', None)
+                if pool is not None and hasattr(pool, 'get'):
+                    with pool.get(), pool.get(), pool.get():
+                        pass
+                    counts['filepool-prewarmed'] = 1
             if via:
                 counts['via:%s' % via[0]] = counts.get('via:%s' % via[0], 0) + 1
             if fault:
@@ -1016,6 +1038,30 @@ def run_case(case, tmp, want_model=True):
                 later_changed = True
             before = after
         res['nontrivial'] = bool(crossing and freed)
+        if kind == 'mvccmap' and view is not None:
+            # a transaction committed after the pack through an instance created BEFORE the pack must be
+            # visible through the main storage, through a fresh instance and in the iterator
+            new_m = (max(ms) if ms else 0) + 2
+            new_op = dict(m=new_m, op='store', recs=[[21, [22], []], [22, [], []]])
+            r, _ = apply_ops(view, kind, [new_op], truth, {})
+            want = {rec[0]: mkpickle(new_m * 100 + rec[0], rec[1], rec[2]) for rec in new_op['recs']}
+            fresh = st.new_instance()
+            lost = []
+            for name, inst in (('the main storage', st), ('a fresh instance', fresh), ('the committing instance', view)):
+                for o, dta in sorted(want.items()):
+                    try:
+                        got1 = inst.load(Z['p64'](o), '')[0]
+                        got2 = inst.loadBefore(Z['p64'](o), real_tid(new_m + 1))
+                        if got1 != dta or got2 is None or got2[0] != dta:
+                            lost.append((name, o))
+                    except Exception as e:
+                        lost.append((name, o, errkind(e)))
+            listed = sorted((o, dta) for t in listing(st) if t['m'] == new_m for o, dta, _ in t['recs'])
+            if r[0][1] != 'ok' or lost or listed != sorted(want.items()):
+                res['bad'].append(('C07:commit-after-pack-lost',
+                                   'transaction %d committed after pack%r through an MVCCMappingStorage instance '
+                                   'created before the pack (%s): not loadable through %r, iterator lists oids %r'
+                                   % (new_m, [x[:2] for x in seq], r[0][1], lost, [o for o, _ in listed])))
         # reopen: the packed file answers identically
         if kind in FSLIKE:
             st.close()
